@@ -42,4 +42,151 @@ def run(tier):
             ck.sample(dict(input=gc.inputs["i"], conversion=e["conv"], got=e["got"]))
     ck.extra["programs"] = n
     ck.extra["rustc_rejected_programs"] = len(rejected)
+    headers_x(ck, g, tier)
     return ck.finish()
+
+
+# ---------------------------------------------------------------------------------------------------------------
+# level X: shape of the impl header, read through an independent parse (xan)
+
+def _nz(s):
+    return re.sub(r"\s+", "", s or "")
+
+
+def headers_x(ck, g, tier):
+    from vlib.model import Instr, Field, Variant, Item, ALL_TRAIT_NAMES, kinds_of, is_fallible_name
+    from checks.c04 import KIND_TRAIT
+    n = 900 if tier == "quick" else 25000
+    items, metas = [], []
+    for i in range(n):
+        r = g.r
+        lts = r.choice([[], [], ["'a"], ["'a", "'b"]])
+        tps = []
+        for nm in r.choice([[], ["T"], ["T"], ["T", "U"]]):
+            tps.append(dict(name=nm, bound=r.choice([None, None, "Clone", "Clone + 'static"]), default=None))
+        if tps and g.chance(0.2):
+            tps[-1]["default"] = "u8"
+        const = g.chance(0.2)
+        const_default = const and (g.chance(0.4) or any(t["default"] for t in tps))
+        decl = list(lts) + [t["name"] + (": " + t["bound"] if t["bound"] else "") + (" = " + t["default"] if t["default"] else "") for t in tps] + (["const N: usize" + (" = 3" if const_default else "")] if const else [])
+        names = list(lts) + [t["name"] for t in tps] + (["N"] if const else [])
+        own_where = []
+        if tps and g.chance(0.4):
+            own_where = [f"{tps[0]['name']}: Ow{g.mark()}"]
+        kind = r.choice(["struct", "struct", "enum"])
+        it = Item(kind, "S", shape="named", generics=("<" + ", ".join(decl) + ">") if decl else "", where=", ".join(own_where))
+        if kind == "struct":
+            it.fields = [Field("a", "i32")] + [Field(f"r{j}", f"&{lt} str") for j, lt in enumerate(lts)] + [Field(f"t{j}", t["name"]) for j, t in enumerate(tps)]
+        else:
+            it.variants = [Variant("V0"), Variant("V1", "tuple", [Field(None, "i32")])]
+        # counterparts
+        cps = []
+        for cpn in r.sample(["A", "B"], r.choice([1, 2])):
+            form = r.choice(["plain", "same_args", "own_lt", "own_lt_twice", "two_own_lts", "ty_only"])
+            args, cplts = [], []
+            if form == "same_args":
+                args = list(names)
+                cplts = list(lts)
+            elif form == "own_lt":
+                args, cplts = ["'x"] + [t["name"] for t in tps], ["'x"]
+            elif form == "own_lt_twice":
+                args, cplts = ["'x", "'x"], ["'x"]
+            elif form == "two_own_lts":
+                args, cplts = ["'x", "'y"] + lts, ["'x", "'y"] + lts
+            elif form == "ty_only":
+                args = [t["name"] for t in tps]
+            path = cpn + (("::" if g.chance(0.2) else "") + "<" + ", ".join(args) + ">" if args else "")
+            cps.append(dict(path=path, lts=cplts, form=form))
+        taken = set()
+        plan = []
+        for _ in range(r.randint(1, 4)):
+            nm = g.pick(ALL_TRAIT_NAMES)
+            if kind == "enum" and "existing" in nm:
+                continue
+            cp = g.pick(cps)
+            fal = is_fallible_name(nm)
+            sl = {(k, fal, cp["path"]) for k in kinds_of(nm)}
+            if sl & taken:
+                continue
+            taken |= sl
+            it.attrs.append(Instr(nm, "trait", ty=cp["path"], hint=None, err="E" if fal else None, params=[]))
+            plan.append((nm, cp, fal))
+        if not plan:
+            continue
+        # where_clause instructions: default and / or dedicated, in random order
+        wc = {}
+        wattrs = []
+        if tps and g.chance(0.5):
+            p = f"{tps[0]['name']}: Df{g.mark()}"
+            wc[None] = p
+            wattrs.append(Instr("where_clause", "where_clause", container=None, preds=p))
+        for cp in cps:
+            if tps and g.chance(0.4) and any(c is cp for _, c, _ in plan):
+                p = f"{tps[-1]['name']}: Dd{g.mark()}"
+                wc[cp["path"]] = p
+                wattrs.append(Instr("where_clause", "where_clause", container=cp["path"], preds=p))
+        r.shuffle(wattrs)
+        for w in wattrs:
+            it.attrs.insert(r.randint(0, len(it.attrs)), w)
+        items.append(it)
+        metas.append(dict(lts=lts, names=names, own_where=own_where, wc=wc, plan=plan, decl=decl, feats=sorted({c["form"] for _, c, _ in plan} | ({"own_where"} if own_where else set()) | ({"wc_default"} if None in wc else set()) | ({"wc_dedicated"} if any(k for k in wc) else set()) | ({"const"} if const else set()) | ({"defaults"} if (const_default or any(t["default"] for t in tps)) else set()) | ({"bounds"} if any(t["bound"] for t in tps) else set()))))
+    srcs = [it.render() for it in items]
+    outs = common.run_x(srcs, "s1", notext=False)
+    reps = common.run_xan([o.get("text", "") if o["status"] == "ok" else "" for o in outs])
+    for it, m, src, o, rep in zip(items, metas, srcs, outs, reps):
+        ck.count()
+        ck.cell(["header", it.kind, m["feats"]])
+        if o["status"] != "ok" or rep.get("parse") != "ok":
+            ck.violation(f"header|not_accepted_or_unparsable|{'+'.join(m['feats'])[:60]}", dict(input=src, outcome=common.brief(o), parse=rep.get("msg")))
+            continue
+        for item in rep["items"]:
+            if item["kind"] != "impl":
+                continue
+            bad = None
+            pn = item["param_names"]
+            tr = item["trait_name"]
+            fal = tr.startswith("Try")
+            base = tr[3:] if fal else tr
+            arg = item["trait_args"][0] if item["trait_args"] else ""
+            by_ref = arg.strip().startswith("&") if base == "From" else item["self_ref"]
+            cptxt = _nz(re.sub(r"^\s*&\s*('\w+)?", "", arg))
+            cp = next((c for _, c, f in m["plan"] if _nz(c["path"]).replace("::<", "<") == cptxt.replace("::<", "<")), None)
+            if cp is None:
+                bad = "counterpart_not_recognised"
+            elif len(pn) != len(set(pn)):
+                bad = "parameter_declared_twice"
+            elif [x for x in pn if x in m["names"]] != m["names"]:
+                bad = "type_parameters_not_declared_once_in_order"
+            elif any("=" in p for p in item["params"]):
+                bad = "default_in_impl_parameters"
+            elif _nz(item["self_ty"]) != "S" + (("<" + ",".join(m["names"]) + ">") if m["names"] else ""):
+                bad = "self_type_not_in_argument_form"
+            else:
+                used = set(re.findall(r"'\w+", arg + " " + item["self_ty"] + " " + (item["self_lt"] or ""))) - {"'static", "'_"}
+                if not used <= set(pn):
+                    bad = "undeclared_lifetime"
+                else:
+                    relevant = m["lts"] if base == "From" else cp["lts"]
+                    relevant = list(dict.fromkeys(relevant))
+                    want_o2o = by_ref and bool(relevant)
+                    has_o2o = "'o2o" in pn
+                    if want_o2o != has_o2o:
+                        bad = "o2o_lifetime_presence"
+                    elif has_o2o:
+                        decl = next(p for p in item["params"] if _nz(p).startswith("'o2o"))
+                        bounds = set(re.findall(r"'\w+", decl.split(":", 1)[1] if ":" in decl else ""))
+                        ref_lt = re.match(r"\s*&\s*('\w+)", arg).group(1) if (base == "From" and re.match(r"\s*&\s*('\w+)", arg)) else item["self_lt"]
+                        if bounds != set(relevant):
+                            bad = "o2o_lifetime_bounds"
+                        elif ref_lt != "'o2o":
+                            bad = "o2o_lifetime_not_on_the_reference"
+                    if not bad:
+                        want_preds = set(_nz(x) for x in m["own_where"])
+                        w = m["wc"].get(cp["path"], m["wc"].get(None))
+                        if w:
+                            want_preds.add(_nz(w))
+                        got = set(x for x in _nz((item["where"] or "").replace("where", "", 1)).split(",") if x)
+                        if got != want_preds:
+                            bad = "where_clause"
+            if bad:
+                ck.violation(f"header|{bad}|{tr}|{cp['form'] if cp else '?'}", dict(input=src, impl=item["text"][:500], params=item["params"], where=item["where"], expected_where=sorted(m["own_where"]) + [m["wc"].get(cp["path"] if cp else None, m["wc"].get(None))]))
